@@ -39,8 +39,9 @@ def h_nadv_invalid(ctx):
     """n_advance rejects n < 1 and snapshots <= 0 (used by C17's late checks)."""
     from checkpoint_schedules.multistage import n_advance
     n = ctx.int("n", None, None)
-    s = ctx.int("s", None, 4)
+    s = ctx.int("s", -1, 4, eager=True)
     traj = ctx.choice("traj", ["maximum", "revolve"])
+    ctx.assume(n <= 200)
     valid = sym_and(n >= 1, s >= 1)
     try:
         i = n_advance(n, s, trajectory=traj)
@@ -531,3 +532,173 @@ def h_numba_stream(ctx, n):
                          "memoised": a[k:k + 2], "tabulated": b[k:k + 2]})
     if n > 2:
         ctx.cover("__nontrivial__")
+
+
+# ---------------------------------------------------------------------------
+# C17: parameter domain
+
+def h_domain(ctx, cls, nmax):
+    """Parameters in a box around the domain boundary.  valid => the stream
+    completes; invalid => exception at construction or at the first next(),
+    with no action emitted."""
+    from .stream import (draw_costs, budgets, drive, OFFLINE, REVOLVE_FAMILY, Monitor)
+    from .monitor import RAM, DISK, WORK, NONE
+    silence_repo_output()
+    P = {"cls": cls}
+    eager = cls in REVOLVE_FAMILY
+    unconstrained = False
+    if cls == "TwoLevel":
+        N = ctx.int("N", 1, nmax, eager=True)
+        P["n"] = N
+        P["period"] = ctx.int("period", -1, nmax + 1)
+        P["b"] = ctx.int("b", 0, 3, eager=True)
+        P["storage"] = ctx.choice("storage", [RAM, DISK, WORK, NONE])
+        P["trajectory"] = ctx.choice("trajectory", ["maximum", "revolve"])
+        valid = sym_and(P["period"] >= 1, P["storage"] in (RAM, DISK))
+    else:
+        n = ctx.int("n", -1, nmax, eager=eager)
+        P["n"] = n
+        if cls == "Multistage":
+            P["ram"] = ctx.int("ram", 0, None)
+            P["disk"] = ctx.int("disk", 0, None)
+            P["trajectory"] = ctx.choice("trajectory", ["maximum", "revolve"])
+            valid = sym_and(n >= 1, sym_or(n == 1, P["ram"] + P["disk"] >= 1))
+        elif cls == "Mixed":
+            P["s"] = ctx.int("s", 0, None)
+            P["storage"] = ctx.choice("storage", [RAM, DISK, WORK, NONE])
+            valid = sym_and(n >= 1, sym_or(n == 1, P["s"] >= 1), P["storage"] in (RAM, DISK))
+        else:
+            P["ram"] = ctx.int("ram", 0, 3, eager=True)
+            if cls == "HRevolve":
+                P["disk"] = ctx.int("disk", 0, 2, eager=True)
+            P["uf"], P["ub"], P["wd"], P["rd"] = draw_costs(ctx, {"costs": "default"})
+            valid = n >= 1 and P["ram"] >= 1
+            # the class documentation restricts the family to snapshots_in_ram > 0; the
+            # statement's domain admits (max_n = 1, no unit): either outcome is accepted there
+            unconstrained = (n == 1 and P["ram"] == 0)
+    is_valid = bool(valid)
+    ctx.trace(("valid", is_valid, tuple(sorted((k, v) for k, v in P.items()))))
+    emitted = 0
+    exc = None
+    sched = None
+    try:
+        sched = construct(P)
+    except PathAbort:
+        raise
+    except Exception as e:                                  # noqa: BLE001
+        exc = ("construct", type(e).__name__)
+    info = lambda: {"params": {k: v for k, v in P.items()}, "valid": is_valid, "exception": exc,  # noqa: E731
+                    "actions_before_exception": emitted}
+    if not is_valid or unconstrained:
+        if sched is not None:
+            # nothing may be emitted before the failure
+            while True:
+                try:
+                    a = next(sched)
+                except StopIteration:
+                    exc = ("next", "StopIteration")
+                    break
+                except PathAbort:
+                    raise
+                except Exception as e:                      # noqa: BLE001
+                    exc = ("next", type(e).__name__)
+                    break
+                emitted += 1
+                if action_kind(a) == "EndReverse" or emitted > 400:
+                    break
+                if cls == "TwoLevel" and emitted >= 3:
+                    break
+        ctx.trace(("invalid", exc, emitted))
+        if unconstrained:
+            ctx.require(exc is None or emitted == 0, "C17.late_failure", info)
+        else:
+            ctx.require(exc is not None and exc[1] != "StopIteration", "C17.invalid_accepted", info)
+            ctx.require(emitted == 0, "C17.late_failure", info)
+        return
+    ctx.require(exc is None, "C17.valid_rejected", info)
+    Nn = P["n"]
+    rb, db = budgets(P, Nn)
+    mon = Monitor(ctx, Nn, rb, db, max_n_known=(cls in OFFLINE))
+    drive(ctx, sched, mon, P, 1, {})
+    ctx.require(mon.passes_done == 1, "C17.incomplete", info)
+    ctx.cover("__nontrivial__")
+
+
+# ---------------------------------------------------------------------------
+# C19: PeriodicDiskRevolve
+
+def h_periodic(ctx, cm, nmax, unwind):
+    from math import comb
+    import checkpoint_schedules as cs
+    from checkpoint_schedules.hrevolve_sequences.periodic_disk_revolve import mxrr_close_formula
+    from .stream import draw_costs
+    silence_repo_output()
+    uf, ub, wd, rd = draw_costs(ctx, {})
+    ctx.assume(wd + rd < comb(cm + 1 + unwind, unwind) * uf)
+    try:
+        m = mxrr_close_formula(cm, uf, rd, wd)
+    except PathAbort:
+        raise
+    except Exception as e:                                  # noqa: BLE001
+        ctx.fail("C19.period_raises", {"exc": repr(e)})
+    m_ref, t_ref = oracles.m_AH(cm, uf, wd, rd, tmax=unwind + 2)
+    ctx.trace(("period", m, m_ref))
+    ctx.require(m == m_ref, "C19.period_formula",
+                lambda: {"cm": cm, "uf": uf, "wd": wd, "rd": rd, "period": m, "aupy_herrmann": m_ref})
+    m = int(m)
+    conv_ok = {"l": True, "n": True}
+    for n in range(1, nmax + 1):
+        sched = cs.PeriodicDiskRevolve(n, cm, uf=uf, ub=ub, wd=wd, rd=rd)
+        writes, loads = [], {}
+        seg_steps = {}
+        phase = "forward"
+        late_write = None
+        sweep_to = 0
+        for a in sched:
+            k = action_kind(a)
+            if k == "Forward":
+                n0, n1, wi, wa, st = a.args
+                if st_name(st) == "DISK":
+                    if phase == "forward":
+                        writes.append(n0)
+                    else:
+                        late_write = n0
+                if phase == "reverse" or True:
+                    seg_steps.setdefault(phase, []).append((n0, n1))
+            elif k in ("Copy", "Move"):
+                if st_name(a.args[1]) == "DISK":
+                    loads[a.args[0]] = loads.get(a.args[0], 0) + 1
+            elif k == "EndForward":
+                phase = "reverse"
+            elif k == "EndReverse":
+                break
+        info = lambda: {"n": n, "cm": cm, "period": m, "disk_writes_at": writes, "loads": loads,  # noqa: E731
+                        "uf": uf, "wd": wd, "rd": rd}
+        exp = {"l": [c for c in range(0, n, m) if (n - 1) - c > m],
+               "n": [c for c in range(0, n, m) if n - c > m]}
+        for key in ("l", "n"):
+            if writes != exp[key]:
+                conv_ok[key] = False
+        ctx.require(writes == exp["l"] or writes == exp["n"], "C19.periodic_writes", info)
+        ctx.require(late_write is None, "C19.late_disk_write", info)
+        ctx.require(sorted(loads) == sorted(writes) and all(v == 1 for v in loads.values()),
+                    "C19.read_once", info)
+        # forward steps spent in each segment
+        bounds = writes + [n] if writes else [n]
+        starts = writes if writes else []
+        last_start = (writes[-1] + m) if writes else 0
+
+        def T(L):
+            return L + oracles.E_bin(L, min(cm, L - 1)) if L > 1 else 1
+        rev = seg_steps.get("reverse", [])
+        for c in writes:
+            got = sum(b - a_ for a_, b in rev if c <= a_ < c + m)
+            ctx.require(got == T(m), "C19.segment_steps",
+                        lambda: dict(info(), segment_start=c, forward_steps=got, revolve_optimum=T(m)))
+        Llast = n - last_start
+        got = sum(b - a_ for ph in ("forward", "reverse") for a_, b in seg_steps.get(ph, []) if a_ >= last_start)
+        ctx.require(got == T(Llast), "C19.segment_steps",
+                    lambda: dict(info(), segment_start=last_start, forward_steps=got, revolve_optimum=T(Llast)))
+    ctx.require(conv_ok["l"] or conv_ok["n"], "C19.period_depends_on_n",
+                lambda: {"cm": cm, "period": m, "note": "the rule deciding when to stop writing is not the same for every n"})
+    ctx.cover("__nontrivial__")
